@@ -24,6 +24,7 @@ func init() {
 	verifRegister("VerifC07_B1_BasePosition", VerifC07_B1_BasePosition)
 	verifRegister("VerifC07_B2_MSM", VerifC07_B2_MSM)
 	verifRegister("VerifC07_B3_MSMOverflow", VerifC07_B3_MSMOverflow)
+	verifRegister("VerifC07_D_Successive", VerifC07_D_Successive)
 	verifRegister("VerifC07_C_Timestamps", VerifC07_C_Timestamps)
 }
 
@@ -217,4 +218,39 @@ func VerifC07_C_Timestamps() {
 		}
 	}
 	verifWitness("returned")
+}
+
+// D: sequences.  A crash that needs two frames: a well-formed MSM message is
+// decoded and displayed first, then a second one of another shape (C04's
+// pairs: same cell-mask value, same number of mask bits or same shape) with
+// symbolic field values goes through the SAME process state and is decoded
+// and displayed at both log levels.  Each frame alone is covered by B2/B3;
+// this adds what the first may leave behind for the second (a cache, a reused
+// buffer).
+func VerifC07_D_Successive() {
+	verifOwnPanics()
+	pr := c04Pairs[verifParam("pair", 0, len(c04Pairs)-1)]
+	kinds := [][2]bool{{false, false}, {true, true}, {false, true}, {true, false}}[verifParam("kinds", 0, 3)]
+	types := func(msm7 bool) int {
+		if msm7 {
+			return 1077
+		}
+		return 1074
+	}
+	level := c07Level()
+	before := c04Concrete(kinds[0], types(kinds[0]), c04IDs(pr[0], 64, 0), c04IDs(pr[1], 32, 0), uint64(pr[2]))
+	c07DecodeAndDisplay(c04Encode(before, 0), level)
+	// quick: the second message has fixed field values too (the shapes are
+	// what a crash of this kind depends on); thorough: symbolic field values
+	var m *c04Msg
+	if verifTier() > 0 {
+		m = c04Symbolic(kinds[1], types(kinds[1]), c04IDs(pr[3], 64, 0), c04IDs(pr[4], 32, 0), uint64(pr[5]))
+		if len(m.sigs) == 0 {
+			verifAssume(!m.mm)
+		}
+	} else {
+		m = c04Concrete(kinds[1], types(kinds[1]), c04IDs(pr[3], 64, 0), c04IDs(pr[4], 32, 0), uint64(pr[5]))
+	}
+	verifWitness("reached")
+	c07DecodeAndDisplay(c04Encode(m, 0), level)
 }
